@@ -1,4 +1,7 @@
-"""Per-property configuration of the orchestrator (tools/egv.py)."""
+"""Per-property configuration of the orchestrator (tools/egv.py).
+
+Every file tools/props.d/Cxx.py defines `P = dict(...)` for one property (see tools/README.md)."""
+import glob, os, importlib.util
 
 COMMON_TRUSTED = [
     "TLC 1.8.0 and the CommunityModules Json/IOUtils modules",
@@ -6,22 +9,16 @@ COMMON_TRUSTED = [
     "tools/egv.py (sharding, verdict parsing, known-finding matching)",
 ]
 
-PROPS = {
-    "C16": dict(
-        bin="egv_c16", trace="Trace_C16", level="model_checking",
-        mc=[dict(module="MC_C16", quick_cfg="MC_C16.cfg", thorough_cfg="MC_C16_thorough.cfg")],
-        required_events=["bin", "un"],
-        level_text="TLC explores the transcribed Rectangle methods exhaustively on a grid (all pairs, incl. zero sizes) against the "
-                   "set meaning of a rectangle; every call of the real methods on that grid (cases generated by the model) and on "
-                   "seeded rectangles up to +-2^20 is recorded and validated by TLC against the same predicates",
-        level_note="trusted: EGGeom abstract part, P_C16, recorder egv_c16; bounded grid + seeded sampling, not a proof for all i32",
-        rule="cases: (G) one per rectangle of the grid explored by MC_C16 (all pairs with the grid + unary battery) "
-             "plus seeded batches (250 pairs of related rectangles / one unary battery) up to +-2^20; "
-             "distinct = distinct case descriptor; every case exercises at least one Rectangle method, so all count as non-trivial",
-        trusted=COMMON_TRUSTED + ["spec/EGGeom.tla abstract part (PointsOf / interval form) and spec/P_C16.tla"],
-        assumptions=["coordinates of the seeded part stay below 2^21 so that no TLC integer overflows"],
-    ),
-}
+PROPS = {}
+_d = os.path.join(os.path.dirname(os.path.abspath(__file__)), "props.d")
+for _f in sorted(glob.glob(os.path.join(_d, "C*.py"))):
+    _spec = importlib.util.spec_from_file_location("props_" + os.path.basename(_f)[:-3], _f)
+    _m = importlib.util.module_from_spec(_spec)
+    _m.COMMON_TRUSTED = COMMON_TRUSTED
+    _spec.loader.exec_module(_m)
+    PROPS[os.path.basename(_f)[:-3]] = _m.P
 
+# properties that are deliberately not claimed: id -> reason
 NOT_APPLICABLE = {}
+# commits in /repo that add cfg-guarded hooks (none needed so far)
 HOOK_COMMITS = []
